@@ -174,6 +174,16 @@ fn main() {
                 writeln!(out, "{}", oracle::run(w, t, r != 0, &src)).unwrap();
             }
         }
+        // HEX HEX -> per-property equality of observations of the two texts
+        "obscmp" => {
+            for line in stdin.lock().lines() {
+                let line = line.unwrap();
+                let mut it = line.split_whitespace();
+                let a = unhex(it.next().unwrap());
+                let b = unhex(it.next().unwrap());
+                writeln!(out, "{}", oracle::obscmp(&a, &b)).unwrap();
+            }
+        }
         // W -> chain_width
         "chainw" => {
             for line in stdin.lock().lines() {
